@@ -634,7 +634,7 @@ class SortedSet(object):
         try:
             while lo < hi:
                 mid = (lo + hi) // 2
-                if a[mid] < x: lo = mid + 1
+                if _ordered_before(a[mid], x): lo = mid + 1
                 else: hi = mid
         except TypeError:
             # could not compare a[mid] with x
@@ -651,6 +651,18 @@ class SortedSet(object):
         return lo
 
 sortedset = SortedSet  # backwards-compatibility
+
+
+def _items_key(s):
+    return [_items_key(i) if isinstance(i, SortedSet) else i for i in s._items]
+
+
+def _ordered_before(a, b):
+    # for sorted sets '<' is the proper-subset relation, which is not a total order: nested sets
+    # (set<frozen<set<...>>>) are ordered by their items instead, so that bisecting stays valid
+    if isinstance(a, SortedSet) and isinstance(b, SortedSet):
+        return _items_key(a) < _items_key(b)
+    return a < b
 
 
 class OrderedMap(Mapping):
